@@ -6,7 +6,7 @@ EXTENDS RuxReg, Json
 CONSTANTS MaxActs, MaxDepth, MaxRoutes
 
 GroupPrefixes == { <<"/", "a">>, <<"b">>, <<"/", "c", "/">>, <<"/">>, <<>> }     \* incl. the root prefixes "/" and ""
-RoutePaths == { <<"/", "x">>, <<"y", "/">>, <<>> }
+RoutePaths == { <<"/", "x">>, <<"y", "/">>, <<>>, <<"/", "a", "x">> }      \* "/ax" begins with the text of the prefix "/a"
 
 Init == RegInit
 Next == /\ Len(prog) < MaxActs
@@ -18,7 +18,7 @@ Next == /\ Len(prog) < MaxActs
            \/ Len(routes) > 0 /\ RouteUse(Len(routes), 1)
 
 Complete == saved = <<>> /\ Len(routes) >= 1
-Line == [prog |-> prog,
+Line == [prog |-> prog, nglobal |-> Len(global),
          routes |-> [k \in 1..Len(routes) |-> [pos |-> routes[k].pos, path |-> ExpPath(routes[k].pos), chain |-> ExpChain(k),
                                                nmw |-> Len(ExpRouteMw(k))]]]
 Emit == ~Complete \/ PrintT(ToJson(Line))
